@@ -6,6 +6,7 @@ import (
 	"fmt"
 	"os"
 	"path/filepath"
+	"reflect"
 	"runtime"
 	"strings"
 	"sync"
@@ -13,6 +14,8 @@ import (
 	"testing"
 	"time"
 
+	"github.com/corazawaf/coraza/v3/internal/corazawaf"
+	"github.com/corazawaf/coraza/v3/internal/seclang"
 	"pgregory.net/rapid"
 )
 
@@ -141,6 +144,7 @@ func checkC06(c *C06Case) Result {
 	}
 	var wg sync.WaitGroup
 	stop := make(chan struct{})
+	chainIDs := map[int][]string{} // id of a transformation chain -> the chains it was handed out for (guarded by mu)
 	loadVocab()
 	for b := 0; b < c.Builders; b++ {
 		wg.Add(1)
@@ -157,13 +161,42 @@ func checkC06(c *C06Case) Result {
 				tr := vocabData.transformations
 				n := len(tr)
 				x := (b*7919 + it*104729 + int(caseSeq)*31) % (n * n * n)
-				extra := fmt.Sprintf("\nSecRule ARGS \"@rx b%dx%d\" \"id:9999,phase:2,pass,t:%s,t:%s,t:%s\"", b, it, tr[x%n], tr[(x/n)%n], tr[(x/n/n)%n])
+				y := (x*31 + 17 + b) % (n * n * n)
+				chainA := []string{tr[x%n], tr[(x/n)%n], tr[(x/n/n)%n]}
+				chainB := []string{tr[y%n], tr[(y/n)%n], tr[(y/n/n)%n]}
+				extra := fmt.Sprintf("\nSecRule ARGS \"@rx b%dx%d\" \"id:9998,phase:2,pass,t:none,t:%s\"\nSecRule ARGS \"@rx c%dx%d\" \"id:9999,phase:2,pass,t:none,t:%s\"",
+					b, it, strings.Join(chainA, ",t:"), b, it, strings.Join(chainB, ",t:"))
 				if f := guard("concurrent NewWAF", func() {
-					w, err := newWAF(conf + extra)
-					if err != nil {
+					iw := corazawaf.NewWAF()
+					if err := seclang.NewParser(iw).FromString(conf + extra); err != nil {
 						panic(fmt.Sprintf("NewWAF failed while other WAFs were in use: %v", err))
 					}
-					closeWAF(w)
+					// the registry of transformation chains hands out one id per distinct chain: the ids key the
+					// per-transaction transformation cache, so two chains under one id means one rule reading the other's values
+					rules := iw.Rules.GetRules()
+					for i := range rules {
+						var chain []string
+						switch rules[i].ID_ {
+						case 9998:
+							chain = chainA
+						case 9999:
+							chain = chainB
+						default:
+							continue
+						}
+						id := int(accessible(reflect.ValueOf(&rules[i]).Elem().FieldByName("transformationsID")).Int())
+						mu.Lock()
+						// t:none empties the list: the chain is what follows the last one
+						for k := len(chain) - 1; k >= 0; k-- {
+							if strings.EqualFold(chain[k], "none") {
+								chain = chain[k+1:]
+								break
+							}
+						}
+						chainIDs[id] = append(chainIDs[id], strings.Join(chain, "+"))
+						mu.Unlock()
+					}
+					_ = iw.Close()
 				}); f != nil {
 					addFail(f.Msg)
 					return
@@ -210,6 +243,14 @@ func checkC06(c *C06Case) Result {
 	close(stop)
 	wg.Wait()
 	closeWAF(shared)
+	for id, chains := range chainIDs {
+		for _, ch := range chains[1:] {
+			if ch != chains[0] {
+				failures = append(failures, fmt.Sprintf("WAFs built concurrently were given the same transformation-chain id %d for two different chains: %q and %q", id, chains[0], ch))
+				break
+			}
+		}
+	}
 	if len(failures) > 0 {
 		res.Fail = failf("%s\nconfig:\n%s", strings.Join(failures, "\n"), conf)
 		return res
